@@ -1,0 +1,15 @@
+//go:build verif
+
+package storage
+
+import "time"
+
+// Verification hooks (add-only, build tag `verif`): what an assembled RetentionScanner was wired with.
+
+// VerifStore returns the store the scanner scans.
+func (rs *RetentionScanner) VerifStore() Store { return rs.ds }
+
+// VerifPeriods returns the retention period and the sleep between mailboxes the scanner was built with.
+func (rs *RetentionScanner) VerifPeriods() (period, sleep time.Duration) {
+	return rs.retentionPeriod, rs.retentionSleep
+}
